@@ -21,15 +21,20 @@ import (
 )
 
 type cop struct {
-	kind string // add | remove | reorg | get | block
-	rec  *txRec
-	blk  []*txRec
+	kind  string // add | announce (gossip handler) | remove | reorg | get | block | rpc
+	rec   *txRec
+	blk   []*txRec
+	fault bool // add / announce: the connection is told to fail its next Publish (whichever Add reaches it first)
 }
 
 func (o cop) String() string {
 	switch o.kind {
-	case "add", "remove":
-		return o.kind + "(" + o.rec.spec.String() + ")"
+	case "add", "remove", "announce":
+		f := ""
+		if o.fault {
+			f = "!"
+		}
+		return o.kind + "(" + o.rec.spec.String() + ")" + f
 	case "block":
 		var s []string
 		for _, r := range o.blk {
@@ -111,15 +116,19 @@ func TestPoolConcurrent(t *testing.T) {
 				// runs two passes at the same time: TransactionPool.Start is the only caller of reorg)
 				k := "reorg"
 				if g > 0 {
-					k = rapid.SampledFrom([]string{"add", "add", "add", "add", "add", "remove", "remove", "get", "block"}).Draw(t, "op")
+					k = rapid.SampledFrom([]string{"add", "add", "add", "add", "add", "remove", "remove", "get", "block", "announce", "announce", "rpc"}).Draw(t, "op")
+				}
+				if len(avoid) > 0 && (k == "announce" || k == "rpc") {
+					k = "add"
 				}
 				if noRemove && (k == "remove" || k == "block") {
 					k = "add"
 				}
 				o := cop{kind: k}
 				switch k {
-				case "add":
+				case "add", "announce":
 					o.rec = mk()
+					o.fault = len(avoid) == 0 && rapid.IntRange(0, 7).Draw(t, "publishFails") == 0
 				case "remove":
 					if len(order) > 0 && rapid.IntRange(0, 3).Draw(t, "known") > 0 {
 						o.rec = order[rapid.IntRange(0, len(order)-1).Draw(t, "target")]
@@ -139,7 +148,17 @@ func TestPoolConcurrent(t *testing.T) {
 			}
 		}
 
-		pool := newPool(c, ver)
+		pool, conn := newPoolConn(c, ver)
+		// event subscribers (0-2): their callbacks run concurrently with everything else
+		resetSubRegistry()
+		subs := &subGroup{}
+		var subNames []string
+		if len(avoid) == 0 {
+			for _, k := range drawSubs(t, []int{0, 0, 1, 1, 2}, []time.Duration{0, 0, 0, 100 * time.Microsecond}) {
+				subs.subs = append(subs.subs, startSubscriber(pool, k))
+				subNames = append(subNames, k.String())
+			}
+		}
 		var mu sync.Mutex
 		var panics []string
 		sawFull := false
@@ -160,7 +179,17 @@ func TestPoolConcurrent(t *testing.T) {
 				cur = o.String()
 				switch o.kind {
 				case "add":
+					if o.fault {
+						conn.armFailures(1)
+					}
 					pool.Add(o.rec.tx)
+				case "announce":
+					if o.fault {
+						conn.armFailures(1)
+					}
+					conn.announce(o.rec.tx.Bytes())
+				case "rpc":
+					conn.getTransactions(nil)
 				case "remove":
 					pool.Remove(o.rec.tx.ID)
 				case "reorg":
@@ -188,7 +217,7 @@ func TestPoolConcurrent(t *testing.T) {
 		}
 		describe := func() string {
 			var b strings.Builder
-			fmt.Fprintf(&b, "%s senders=%d\n", c, nS)
+			fmt.Fprintf(&b, "%s senders=%d subscribers=%v (! = the connection fails its next Publish)\n", c, nS, subNames)
 			for _, r := range order {
 				fmt.Fprintf(&b, "  verifier[%s]=%s\n", r.spec, ansNames[ver.get(r.id)])
 			}
@@ -208,7 +237,11 @@ func TestPoolConcurrent(t *testing.T) {
 			}
 			close(start)
 			wg.Wait()
+			pool.End() // closes the subscribers' channels; they finish what they are doing and leave
+			subs.waitExit()
 		})
+		unregisterSubs(subs.subs)
+		panics = append(panics, subs.takePanics()...)
 		switch st {
 		case callDeadlock:
 			if restricted || !listedKnown(sigDeadlock, true) || !strings.Contains(dump, "(*TransactionPool).evict") {
@@ -259,6 +292,13 @@ func TestPoolConcurrent(t *testing.T) {
 		}
 		nontrivial := limit || len(s.proc) > 0
 		labels := []string{"concurrent"}
+		labels = append(labels, fmt.Sprintf("conc:subscribers:%d", len(subs.subs)))
+		if subs.events() > 0 {
+			labels = append(labels, "conc:events-delivered")
+		}
+		if _, failed := conn.takeCounts(); failed > 0 {
+			labels = append(labels, "conc:publish-failed")
+		}
 		if limit {
 			labels = append(labels, "conc:limit-reached")
 		}
